@@ -174,9 +174,9 @@ def ev_index(case, rec):
 
 
 SUBCHECKS = [
-    Sub('vincdir', gen_dir, ev_dir, chunk=1, floor=500),
-    Sub('vincinv', gen_inv, ev_inv, chunk=4, floor=500),
-    Sub('index', gen_index, ev_index, chunk=1, floor=1, parallel=False),
+    Sub('vincdir', gen_dir, ev_dir, chunk=1, floor=500, guard=True),
+    Sub('vincinv', gen_inv, ev_inv, chunk=4, floor=500, guard=True),
+    Sub('index', gen_index, ev_index, chunk=1, floor=1, parallel=False, guard=True),
 ]
 
 
